@@ -1,8 +1,12 @@
 import Dashu.Driver.Ratio
+import Dashu.Model.Ratio.PowGuard
 /-
   Driver ops of C04 added in round 5 (kept in their own file: `Driver/Ratio.lean` is shared with C18):
     qp.preds q:<num>/<den>:<R|X>  ->  `<sign> <is_zero> <is_one> <is_int | -> <into_parts> <clone_from>`
     qp.consts <R|X>               ->  `ZERO ONE NEG_ONE default()`
+    qp.pow q:<num>/<den>:<R|X> d:<n> -> `pow(n)` as stored, or `panic AllocTooMuch` (round 6; `powChecked`: Repr::pow with the
+                                     allocation guards of IBig::pow / UBig::pow); spec: the value is `v ^ n`, a panic only
+                                     when the exact result has at least 2^62 bits
   Beside the model's answers the specification is evaluated on the value in `Rat`
   (`is_zero ⇔ v = 0`, `is_one ⇔ v = 1`, `is_int ⇔ v.den = 1`, negative ⇔ `v < 0`).
 -/
@@ -27,6 +31,21 @@ def dispatch : Dispatch := fun _W op args =>
       let specOk := (neg == decide (v < 0)) && (z == decide (v = 0)) && (one == decide (v = 1)) &&
         (match int? with | some b => b == decide (v.den = 1) | none => true) && decide (q.val = v)
       pure (if specOk then ok s else mismatch (ok s) "preds")
+  | "qp.pow", [a, n] => do
+    let p ← parseParts a; let n ← parseDecNat n
+    if n ≥ 2 ^ usizeBits then none
+    match mkReg p with
+    | .error k => pure (panic k.name)
+    | .ok r =>
+      match powChecked _W r.q n with
+      | .ok q =>
+        let s := ok (showQ q)
+        pure (if regOk ⟨r.kind, q⟩ (Spec.qpow r.val n) then s else mismatch s "pow")
+      | .error k =>
+        -- the exact result does not fit any buffer: a component of at least 2^62 bits
+        let big := fun (v : Nat) => decide (2 ^ 62 ≤ n * (v.log2))
+        pure (if k == .allocTooMuch && (big r.q.num.natAbs || big r.q.den) then panic k.name
+              else mismatch (panic k.name) "pow-panic-not-justified")
   | "qp.consts", [k] => do
     let _ ← parseKind k
     pure (ok (" ".intercalate [showQ Q.zero, showQ Q.one, showQ Q.negOne, showQ Q.zero]))
